@@ -237,6 +237,7 @@ pub struct Interp {
     sorter: Option<Sorter<Mf, Creator>>,
     smf: Option<Mf>,
     sctl: Rc<RefCell<ChunkCtl>>,
+    alloc_live: HashMap<usize, (usize, usize)>,
     pub oracle_failures: u64,
     pub stats: BTreeMap<String, u64>,
 }
@@ -283,6 +284,7 @@ impl Interp {
             sorter: None,
             smf: None,
             sctl: Rc::new(RefCell::new(ChunkCtl::default())),
+            alloc_live: HashMap::new(),
             oracle_failures: 0,
             stats: BTreeMap::new(),
         }
@@ -413,7 +415,22 @@ impl Interp {
                 let n: u32 = toks[1].parse().unwrap_or(0);
                 let mut buf = [0u8; 10];
                 let enc = grenad::verif::varint_encode32(&mut buf, n).to_vec();
-                self.emit(line, hex(&enc), "-".into());
+                // C14 oracle on the real functions: decodes back to the same value, consuming
+                // exactly the encoded bytes, whatever follows them
+                let mut probe = enc.clone();
+                probe.extend_from_slice(&[0xff, 0x00, 0x81]);
+                let r = catch_unwind(|| {
+                    let mut v = 0u32;
+                    let used = grenad::verif::varint_decode32(&probe, &mut v);
+                    (v, used)
+                });
+                let good = matches!(r, Ok((v, used)) if v == n && used == enc.len()) && !enc.is_empty() && enc.len() <= 5;
+                if good {
+                    self.emit(line, hex(&enc), "-".into());
+                } else {
+                    self.oracle_failures += 1;
+                    self.emit(line, format!("ORACLE-FAIL varint {} encodes to {} and decodes to {:?}", n, hex(&enc), r.ok()).replace(' ', "_").replacen("ORACLE-FAIL_", "ORACLE-FAIL ", 1), "-".into());
+                }
             }
             "vdec" => {
                 let b = unhex(toks[1]).unwrap_or_default();
@@ -432,7 +449,13 @@ impl Interp {
                 let a: u64 = toks[1].parse().unwrap_or(0);
                 let c: u64 = toks[2].parse().unwrap_or(0);
                 let s: u64 = toks[3].parse().unwrap_or(1);
-                self.emit(line, hex64(varint_digest(a, c, s)), "-".into());
+                match varint_first_bad(a, c, s) {
+                    None => self.emit(line, hex64(varint_digest(a, c, s)), "-".into()),
+                    Some(v) => {
+                        self.oracle_failures += 1;
+                        self.emit(line, format!("ORACLE-FAIL varint_{}_does_not_round_trip", v), "-".into());
+                    }
+                }
             }
             "open" => {
                 let b = unhex(toks[1]).unwrap_or_default();
@@ -736,7 +759,7 @@ impl Interp {
                 self.emit0(&format!("msrc {}", toks[1]));
                 self.msrcs.push((es, cfg));
             }
-            "merge" | "mergew" => self.merge_op(line, &toks),
+            "merge" | "mergew" | "!merge" | "!mergew" => self.merge_op(line, &toks),
             "scfg" => {
                 let a = &toks[1..];
                 self.scfg = SCfg {
@@ -829,18 +852,36 @@ impl Interp {
         let fail_at: u64 = toks.get(2).and_then(|s| s.parse().ok()).unwrap_or(0);
         let calls: Calls = Rc::new(RefCell::new(Vec::new()));
         let mf = Mf { kind, calls: calls.clone(), fail_at };
-        let to_writer = toks[0] == "mergew";
+        let to_writer = toks[0].ends_with("mergew");
+        let impl_only = toks[0].starts_with('!');
         let msrcs = self.msrcs.clone();
         let choppy = self.src_choppy;
+        let fault = if impl_only { self.src_fault.clone() } else { None };
+        let fired: Rc<RefCell<Vec<(Rc<RefCell<vio::SrcStats>>, Rc<RefCell<bool>>)>>> = Rc::new(RefCell::new(Vec::new()));
+        let fired2 = fired.clone();
         let r = catch_unwind(AssertUnwindSafe(|| -> Result<Vec<Entry>, String> {
             let mut b = Merger::builder(mf);
-            for (es, cfg) in &msrcs {
+            for (j, (es, cfg)) in msrcs.iter().enumerate() {
                 let bytes = Self::build_file(es, cfg);
+                let low = bytes.len() as u64;
                 let mut src = Src::new(Arc::new(bytes));
                 if let Some(seed) = choppy {
                     src.choppy = Some(Rc::new(RefCell::new(Rng::new(seed))));
                 }
+                let (stats, flt, fr) = (src.stats.clone(), src.fault.clone(), src.fired.clone());
                 let c = Reader::new(src).and_then(|r| r.into_cursor()).map_err(|e| fmt_err(&e))?;
+                if let Some((kind, n, tag)) = &fault {
+                    // the fault goes to one source, chosen by its position; counted after the open
+                    if j as u64 == n % (msrcs.len() as u64) {
+                        *stats.borrow_mut() = vio::SrcStats { low, ..Default::default() };
+                        *flt.borrow_mut() = Some(if kind == "seek" {
+                            SrcFault::Seek(1 + n / msrcs.len() as u64, *tag)
+                        } else {
+                            SrcFault::ReadAfterSeek(1 + n / msrcs.len() as u64, *tag)
+                        });
+                        fired2.borrow_mut().push((stats, fr));
+                    }
+                }
                 b.push(c);
             }
             let merger = b.build();
@@ -867,12 +908,68 @@ impl Interp {
             Ok(Err(e)) => (e, format!("calls={}", c.len())),
             Err(p) => (format!("panic {}", panic_name(p)), "-".into()),
         };
+        drop(c);
+        if impl_only {
+            // impl-only oracle (C12): if the armed fault was reached the call must return that
+            // I/O error; if it was never reached the result must be the fault-free one
+            let (kind, n, tag) = fault.clone().unwrap_or(("seek".into(), 0, 0));
+            let nth = 1 + n / (self.msrcs.len().max(1) as u64);
+            let reached = fired.borrow().iter().any(|(st, fr)| {
+                if kind == "seek" { st.borrow().seeks >= nth } else { *fr.borrow() }
+            });
+            let expected: Vec<Entry> = {
+                let mut m: std::collections::BTreeMap<Vec<u8>, Vec<Vec<u8>>> = Default::default();
+                for (es, _) in &self.msrcs {
+                    for (k, v) in es {
+                        m.entry(k.clone()).or_default().push(v.clone());
+                    }
+                }
+                m.into_iter().map(|(k, vs)| { let v = apply_mf(toks[1], &vs); (k, v) }).collect()
+            };
+            let ok = if reached { f1 == format!("err io {}", tag) } else { f1 == format!("ok {}", fmt_list(&expected)) };
+            let f1 = if ok {
+                if reached { "fault-surfaced".to_string() } else { "ok".to_string() }
+            } else {
+                self.oracle_failures += 1;
+                format!("ORACLE-FAIL fault_reached={} got={}", reached, f1.replace(' ', "_"))
+            };
+            self.emit(line, f1, "-".into());
+            return;
+        }
         self.emit(line, f1, f2);
     }
 
-    fn sorter_state(&self, s: &Sorter<Mf, Creator>) -> String {
+    /// C17 oracle on the allocation trace: every dealloc frees a live allocation with the very
+    /// layout it was allocated with; no allocation of size 0; alignment of the bound records.
+    fn alloc_oracle(live: &mut HashMap<usize, (usize, usize)>, trace: &[grenad::verif::AllocEvent]) -> Option<String> {
+        for e in trace {
+            match e {
+                grenad::verif::AllocEvent::Alloc { size, align, addr } => {
+                    if *size == 0 || *align != 8 || size % 16 != 0 || addr % 8 != 0 {
+                        return Some(format!("bad allocation size={} align={}", size, align));
+                    }
+                    live.insert(*addr, (*size, *align));
+                }
+                grenad::verif::AllocEvent::Dealloc { size, align, addr } => match live.remove(addr) {
+                    Some((s, a)) if s == *size && a == *align => {}
+                    Some((s, a)) => {
+                        return Some(format!("allocated with size {} align {}, freed with size {} align {}", s, a, size, align))
+                    }
+                    None => return Some(format!("freed an allocation that is not live (size {})", size)),
+                },
+            }
+        }
+        None
+    }
+
+    fn sorter_state(&mut self, s: &Sorter<Mf, Creator>) -> String {
         let (buf, elen, bc, chunks) = s.verif_fingerprint();
-        let ev: Vec<String> = grenad::verif::take_alloc_trace()
+        let trace = grenad::verif::take_alloc_trace();
+        if let Some(msg) = Self::alloc_oracle(&mut self.alloc_live, &trace) {
+            self.oracle_failures += 1;
+            return format!("ORACLE-FAIL {}", msg.replace(' ', "_"));
+        }
+        let ev: Vec<String> = trace
             .iter()
             .map(|e| match e {
                 grenad::verif::AllocEvent::Alloc { size, align, .. } => {
@@ -893,6 +990,10 @@ impl Interp {
         let calls: Calls = Rc::new(RefCell::new(Vec::new()));
         let mf = Mf { kind, calls, fail_at };
         self.smf = Some(mf.clone());
+        // drop any previous sorter first and forget the allocation events of earlier scenarios
+        self.sorter = None;
+        grenad::verif::take_alloc_trace();
+        self.alloc_live.clear();
         {
             let mut c = self.sctl.borrow_mut();
             c.events.clear();
@@ -925,8 +1026,16 @@ impl Interp {
         }));
         match r {
             Ok(s) => {
-                grenad::verif::take_alloc_trace();
+                self.alloc_live.clear();
+                let trace = grenad::verif::take_alloc_trace();
+                let bad = Self::alloc_oracle(&mut self.alloc_live, &trace);
                 let (buf, _, _, _) = s.verif_fingerprint();
+                if let Some(msg) = bad {
+                    self.oracle_failures += 1;
+                    self.sorter = Some(s);
+                    self.emit(line, format!("ORACLE-FAIL {}", msg.replace(' ', "_")), "-".into());
+                    return;
+                }
                 self.sorter = Some(s);
                 self.emit(line, format!("ok buf={} elen=0 bc=0 chunks=0 ev=A{} cev=", buf, buf), "-".into());
             }
@@ -1027,7 +1136,18 @@ impl Interp {
                 }
             }
         }));
-        grenad::verif::take_alloc_trace();
+        let trace = grenad::verif::take_alloc_trace();
+        let mut alloc_bad = Self::alloc_oracle(&mut self.alloc_live, &trace);
+        if alloc_bad.is_none() && !self.alloc_live.is_empty() && matches!(r, Ok(Ok(_))) {
+            alloc_bad = Some(format!("{} sorter buffer allocation(s) leaked", self.alloc_live.len()));
+        }
+        let aev: Vec<String> = trace
+            .iter()
+            .map(|e| match e {
+                grenad::verif::AllocEvent::Alloc { size, .. } => format!("A{}", size),
+                grenad::verif::AllocEvent::Dealloc { size, .. } => format!("D{}", size),
+            })
+            .collect();
         self.sctl.borrow_mut().events.clear();
         let calls = mf.calls.borrow();
         let (f1, f2) = match r {
@@ -1036,9 +1156,9 @@ impl Interp {
 {
                     let ch = if chunks == u64::MAX { "*".to_string() } else { chunks.to_string() };
                     if stable {
-                        format!("chunks={} calls={} cfnv={}", ch, calls.len(), hex64(fnv_calls(FNV_INIT, &calls)))
+                        format!("chunks={} calls={} cfnv={} aev={}", ch, calls.len(), hex64(fnv_calls(FNV_INIT, &calls)), aev.join(","))
                     } else {
-                        format!("chunks={} calls={} cfnv=*", ch, calls.len())
+                        format!("chunks={} calls={} cfnv=* aev={}", ch, calls.len(), aev.join(","))
                     }
                 },
             ),
@@ -1047,6 +1167,13 @@ impl Interp {
         };
         drop(calls);
         let f1 = if impl_only { self.fault_oracle(f1, ops_before) } else { f1 };
+        let f1 = match alloc_bad {
+            Some(msg) => {
+                self.oracle_failures += 1;
+                format!("ORACLE-FAIL {}", msg.replace(' ', "_"))
+            }
+            None => f1,
+        };
         self.emit(line, f1, f2);
     }
 
@@ -1132,6 +1259,22 @@ fn iter_next(it: &mut IterBox) -> Result<Option<Entry>, String> {
     }
 }
 
+pub fn varint_first_bad(start: u64, count: u64, stride: u64) -> Option<u64> {
+    let mut v = start;
+    let mut buf = [0u8; 10];
+    for _ in 0..count {
+        let enc = grenad::verif::varint_encode32(&mut buf, v as u32).to_vec();
+        let mut x = 0u32;
+        let r = catch_unwind(AssertUnwindSafe(|| grenad::verif::varint_decode32(&enc, &mut x)));
+        match r {
+            Ok(n) if n == enc.len() && x == v as u32 && (1..=5).contains(&n) => {}
+            _ => return Some(v),
+        }
+        v += stride;
+    }
+    None
+}
+
 pub fn varint_digest(start: u64, count: u64, stride: u64) -> u64 {
     let mut h = FNV_INIT;
     let mut v = start;
@@ -1140,7 +1283,7 @@ pub fn varint_digest(start: u64, count: u64, stride: u64) -> u64 {
         let enc = grenad::verif::varint_encode32(&mut buf, v as u32).to_vec();
         h = fnv_bytes(h, &enc);
         let mut x = 0u32;
-        let n = grenad::verif::varint_decode32(&enc, &mut x);
+        let n = catch_unwind(AssertUnwindSafe(|| grenad::verif::varint_decode32(&enc, &mut x))).unwrap_or(99);
         h = fnv_nat(fnv_nat(h, x as u64), n as u64);
         v += stride;
     }
